@@ -266,4 +266,100 @@ def run(ctx):
                    "set() and join() the field can change under it" % (f.short, fld))
         else:
             r.ok("self.%s is rebound only on the caller's side" % fld)
+
+    # ---------------------------------------------------------------- R7
+    r = ctx.rule("C19-R7", "PAIR", "whoever ends the automatic mode ends the spinner: in the method that joins the spinner thread every normal path to its end passes the join "
+                 "(or the test showing there is no thread) - no early return on quiet / on the output kind before it; and a thread object that is created is started on every "
+                 "path to the with-body (a join of a thread that was never started raises)", reference=2)
+    always_joins = set()
+    for _round in range(3):
+        for name_, m in sorted(methods.items()):
+            cfg_ = ctx.cfg(m)
+            joins = {n.id for c in q.calls(m) if isinstance(c.func, ast.Attribute) and c.func.attr == "join" and is_self_attr(c.func.value, thread_attr) for n in cfg_.nodes_of(c)}
+            joins |= {n.id for c in q.calls(m) if isinstance(c.func, ast.Attribute) and isinstance(c.func.value, ast.Name) and c.func.value.id == "self" and c.func.attr in always_joins for n in cfg_.nodes_of(c)}
+            if not joins:
+              continue
+            if _round < 2:
+              nt_ = {e.id for e in cfg_.nodes if e.kind in ("T", "F") and isinstance(e.ast, ast.Compare) and is_self_attr(e.ast.left, thread_attr) and isinstance(e.ast.comparators[0], ast.Constant)
+                     and e.ast.comparators[0].value is None and ((isinstance(e.ast.ops[0], ast.IsNot) and e.kind == "F") or (isinstance(e.ast.ops[0], ast.Is) and e.kind == "T"))}
+              if cfg_.all_paths_hit(cfg_.entry.id, joins | nt_, [cfg_.exit.id]):
+                  always_joins.add(name_)
+              continue
+            no_thread = {e.id for e in cfg_.nodes if e.kind in ("T", "F") and isinstance(e.ast, ast.Compare) and is_self_attr(e.ast.left, thread_attr) and isinstance(e.ast.comparators[0], ast.Constant)
+                         and e.ast.comparators[0].value is None and ((isinstance(e.ast.ops[0], ast.IsNot) and e.kind == "F") or (isinstance(e.ast.ops[0], ast.Is) and e.kind == "T"))}
+            no_thread |= {e.id for e in cfg_.nodes if e.kind == "F" and is_self_attr(e.ast, thread_attr)}
+            if cfg_.all_paths_hit(cfg_.entry.id, joins | no_thread, [cfg_.exit.id]):
+                r.ok("%s: every normal path joins the spinner or finds none" % m.short)
+            else:
+                r.fail(m, m.node, "%s can return without joining the spinner" % name_, "%s has a normal path to its end that neither joins the spinner thread nor establishes that there is none "
+                       "(an early return): the automatic mode is left while the spinner is still running" % m.short)
+    scfg_ = ctx.cfg(starter)
+    created = [n for n in scfg_.nodes if n.kind == "stmt" and isinstance(n.ast, ast.Assign) and isinstance(n.ast.value, ast.Call) and norm(n.ast.value.func).endswith("Thread")]
+    starts = {n.id for c in q.calls(starter) if isinstance(c.func, ast.Attribute) and c.func.attr == "start" and not c.args and (is_self_attr(c.func.value, thread_attr) or isinstance(c.func.value, ast.Name)) for n in scfg_.nodes_of(c)}
+    yields = [n.id for n in scfg_.nodes if n.ast is not None and n.kind in ("stmt",) and any(isinstance(x, (ast.Yield, ast.YieldFrom)) for x in walk_no_nested(n.ast))]
+    if created and yields:
+        if starts and all(scfg_.all_paths_hit(c_.id, starts, yields) for c_ in created):
+            r.ok("%s: the thread is started on every path to the with-body" % starter.short)
+        else:
+            r.fail(starter, created[0].ast, "thread created but not always started", "%s creates the spinner thread but reaches the with-body on a path that does not start it: leaving the mode joins "
+                   "a thread that never ran - RuntimeError instead of the end message (and instead of the body's own exception)" % starter.short)
+
+    # ---------------------------------------------------------------- R8
+    r = ctx.rule("C19-R8", "RANGE", "a frame can be drawn at any moment (the caller changes the message while the spinner ticks): where the spinner character is picked, the running counter is "
+                 "reduced modulo the number of characters - the bound does not rely on another statement having run first", reference=1)
+    n8 = 0
+    for name_, m in sorted(methods.items()):
+        for sub in [n for n in walk_no_nested(m.node) if isinstance(n, ast.Subscript) and isinstance(n.ctx, ast.Load) and is_self_attr(n.value) and any(is_self_attr(x) for x in walk_no_nested(n.slice))]:
+            counter = [x.attr for x in walk_no_nested(sub.slice) if is_self_attr(x) and x.attr != sub.value.attr]
+            if not counter:
+                continue
+            written_by_thread = any(q.writes_to_self_attr(f_, counter[0]) for f_ in thread_side.values() if f_.cls is pi)
+            if not written_by_thread:
+                continue
+            n8 += 1
+            sl = sub.slice
+            if isinstance(sl, ast.BinOp) and isinstance(sl.op, ast.Mod) and any(isinstance(c, ast.Call) and isinstance(c.func, ast.Name) and c.func.id == "len" and c.args and norm(c.args[0]) == norm(sub.value) for c in walk_no_nested(sl.right)):
+                r.ok("%s: %s" % (m.short, norm(sub)))
+            else:
+                r.fail(m, sub, norm(sub), "%s indexes %s with the raw counter self.%s, which the spinner thread changes: between the spinner's increment and its wrap-around a frame drawn by the caller "
+                       "raises IndexError" % (m.short, norm(sub.value), counter[0]))
+    if n8 == 0:
+        r.vacuous_ok = True
+
+    # ---------------------------------------------------------------- R9
+    r = ctx.rule("C19-R9", "KEY", "the frame format is chosen for the output the frames are written to: capability questions (ANSI support, verbosity) are put to self._io after the constructor "
+                 "unwrapped an I/O facade to its error output - never to the constructor's raw parameter", reference=3)
+    CAP = ("supports_ansi", "is_verbose", "is_very_verbose", "is_debug", "is_quiet")
+    init_ = methods["__init__"]
+    icfg_ = ctx.cfg(init_)
+    io_field_writes = [n for n in icfg_.nodes if n.kind == "stmt" and isinstance(n.ast, ast.Assign) and any(is_self_attr(t, "_io") for t in n.ast.targets)]
+    n9 = 0
+    for name_, m in sorted(methods.items()):
+        for c in q.calls(m):
+            if not (isinstance(c.func, ast.Attribute) and c.func.attr in CAP):
+                continue
+            recv = c.func.value
+            n9 += 1
+            if is_self_attr(recv, "_io"):
+                # in the constructor (or a helper it calls) the field must have been assigned before
+                if m is init_ and not all(any(icfg_.dominates(w.id, cn.id) for w in io_field_writes) for cn in icfg_.nodes_of(c)):
+                    r.fail(m, c, norm(c) + " before self._io is set", "%s asks %s before self._io was assigned" % (m.short, norm(c)))
+                else:
+                    r.ok("%s: %s" % (m.short, norm(c)))
+            elif isinstance(recv, ast.Name) and recv.id in m.params:
+                r.fail(m, c, "%s asked of parameter %s" % (c.func.attr, recv.id), "%s puts the question %s() to its parameter `%s`, not to self._io: for an I/O facade that is the standard output, while the frames go to "
+                       "the error output - with a plain stdout and a capable stderr every frame loses its spinner character" % (m.short, c.func.attr, recv.id))
+            else:
+                r.ok("%s: %s" % (m.short, norm(c)))
+    # helpers that read self._io and are called from the constructor must be called after the assignment
+    for c in q.calls(init_):
+        if isinstance(c.func, ast.Attribute) and isinstance(c.func.value, ast.Name) and c.func.value.id == "self" and c.func.attr in methods:
+            h = methods[c.func.attr]
+            if any(isinstance(x.func, ast.Attribute) and x.func.attr in CAP and is_self_attr(x.func.value, "_io") for x in q.calls(h)):
+                if all(any(icfg_.dominates(w.id, cn.id) for w in io_field_writes) for cn in icfg_.nodes_of(c)):
+                    r.ok("%s: %s called after self._io is set" % (init_.short, norm(c.func)))
+                else:
+                    r.fail(init_, c, norm(c.func) + " before self._io is set", "%s is called before self._io is assigned" % norm(c.func))
+    if n9 == 0:
+        r.vacuous_ok = True
     return ctx.results
